@@ -296,7 +296,7 @@ func c04Run(sc *C04Scenario, tr *kit.Trace, res *kit.Result) {
 					res.Fail("C04/older-data-after-newer", "op %d at %v: %s/%s: %s made at %ds was served after data made at %ds had been served for the same question (at %v)", i, now, name, dns.TypeToString[qt], what, st, prev.stamp, prev.at)
 					return false
 				}
-				if st == prev.stamp && shown > prev.ttl && upstream == 0 && prev.hit {
+				if st == prev.stamp && shown > prev.ttl && upstream == 0 && age > slack && prev.hit {
 					res.Fail("C04/ttl-grew-between-hits", "op %d at %v: %s/%s: the same stored %s (made at %ds) showed TTL %d at %v and now shows %d", i, now, name, dns.TypeToString[qt], what, st, prev.ttl, prev.at, shown)
 					return false
 				}
@@ -304,7 +304,9 @@ func c04Run(sc *C04Scenario, tr *kit.Trace, res *kit.Result) {
 					refetched++
 				}
 			}
-			last[part] = seen{st, shown, now, upstream == 0}
+			// a proven hit: no upstream packet during the query AND data too old to have come
+			// from a lookup this query merely joined (another query's or a prefetch's)
+			last[part] = seen{st, shown, now, upstream == 0 && age > slack}
 			if upstream == 0 {
 				cacheServed++
 			}
